@@ -27,6 +27,10 @@ A labelled transition system.
 * `items : List α` is the `UnsafeCell<ChunkyVec>` (append-only; reference stability is trusted).
 * no cancellation: a request that is waiting (`Pending`) is never dropped (`start` on an active
   consumer and `finish` on a waiting one are no-ops).
+* not modelled: `prefetch`, the `unsafe` pin projections / `PinCell` and `RefCell` borrows (a source or
+  waker that re-enters the cache would panic on the borrow; wakers here only set flags), and what the
+  three `bundles.rs` macros do with a bundle besides deciding whether to go on (that is C16).
+  A request of depth `want` goes on until it has been handed `max want 1` bundles or `None`.
 -/
 namespace FluentModel.Cache
 
